@@ -495,4 +495,35 @@ theorem chunk_dump_reads_back (c : Nat) (bs : Bytes) : parseHexOut (printChunks 
   have : parseHexOut [] = [] := by rw [parseHexOut]
   rw [this, List.append_nil]
 
+/-- **`-p -c N` prints the code the library produced**: for EVERY flag list with `-p`, chunk fitting and no `-b`, every source and program —
+    when the run succeeds, reading back what asmline prints gives exactly the bytes `[0, offset)` of the instance's buffer -/
+theorem p_with_fitting_prints_the_code (flags : List Flag) (stdin : Bool) (prog : Option Str)
+    (hu : (parseFlags { a := createInternal } flags).usage = false)
+    (hd : (parseFlags { a := createInternal } flags).debug = true)
+    (hb : (parseFlags { a := createInternal } flags).boundary ≤ 0)
+    (hf : (applyLong (parseFlags { a := createInternal } flags)).mode = .fitting)
+    (hok : (assemblePhase (parseFlags { a := createInternal } flags) stdin prog).2.1 = true) :
+    parseHexOut (cliStdout flags stdin prog) =
+      (((assemblePhase (parseFlags { a := createInternal } flags) stdin prog).1.mem.take
+        (assemblePhase (parseFlags { a := createInternal } flags) stdin prog).1.offset.toNat).map (· % 256)) := by
+  have hnb : ¬ (parseFlags { a := createInternal } flags).boundary > 0 := by
+    simp only [Int.not_lt]; exact hb
+  have hcount : (assemblePhase (parseFlags { a := createInternal } flags) stdin prog).2.2 = none := by
+    unfold assemblePhase
+    dsimp only
+    by_cases hs : stdin = true
+    · simp only [hs, if_true, hnb, decide_false, Bool.false_eq_true, if_false]
+    · simp only [hs, if_false, hnb, decide_false, Bool.false_eq_true]
+      split <;> rfl
+  unfold cliStdout
+  simp only [hu, Bool.false_eq_true, if_false, hd, Bool.not_true, hf, beq_self_eq_true, Bool.true_and, decide_eq_true_eq, hb, if_true, hok,
+    hcount, List.append_nil]
+  exact chunk_dump_reads_back _ _
+
+/-- non-vacuity: `asmline -p -c 8 FILE` on a two-line program meets every hypothesis of `p_with_fitting_prints_the_code` -/
+example :
+    let st := parseFlags { a := createInternal } [.p, .c 8]
+    st.usage = false ∧ st.debug = true ∧ st.boundary ≤ 0 ∧ (applyLong st).mode = .fitting ∧
+      (assemblePhase st false (some (str! "mov rax, 0x1122334455667788\nret"))).2.1 = true := by decide +kernel
+
 end AL.Properties.C20
